@@ -516,6 +516,7 @@ def build_comparison(sx: SymExec):
     if [c[0] for c in children] != ["comparison_levels"]:
         raise Untranslatable(f"Comparison.as_dict children: {children}")
     loader = loader_entries(Comparison, ident, post)
+    check_children("Comparison", children, {"comparison_levels": {"self.comparison_levels"}}, SHAPE_PROBLEMS)
     st_cmp = Stage("Comparison.as_dict -> Comparison(**dict)", rules, loader, children)
     fields = [(p, "str", False, True) for p in cparams]      # stored name/description are never empty
     p4 = Pipeline("comparison_roundtrip", [st_cmp], fields, {p: ("field", p) for p in cparams},
@@ -576,6 +577,10 @@ def build_settings(sx: SymExec):
         else:
             d, required = None, True
         loader.append((f.name, d, post.get(f.name, ("field", f.name)), required))
+    check_children("Settings", ch, {"comparisons": {"self.comparisons", "self.core_model_settings.comparisons"},
+                                    "blocking_rules_to_generate_predictions":
+                                        {"Settings._blocking_rules_to_generate_predictions",
+                                         "self._blocking_rules_to_generate_predictions"}}, SHAPE_PROBLEMS)
     st = Stage("Settings.as_dict -> SettingsCreator(**dict) -> Settings(**asdict)", rules, loader, ch)
     fields = []
     ann = {f.name: str(f.type) for f in sc_fields}
@@ -664,13 +669,60 @@ def build_blocking(sx: SymExec):
     return out
 
 
+def check_children(owner, children, expected, problems):
+    """structural children must be serialised by iterating the stored list itself (same order, no filter)"""
+    for key, src_, method in children:
+        if key in expected and (src_ not in expected[key] or method != "as_dict"):
+            problems.append({"group": "children_order", "shape": True,
+                             "why": f"{owner}.as_dict builds '{key}' from `{src_}` with .{method}() instead of iterating "
+                                    f"{' / '.join(sorted(expected[key]))} in stored order"})
+
+
+def check_save_route(problems):
+    """LinkerMisc.save_model_to_json: whenever it does not raise and a path is given, the file is (re)written
+    with the returned dictionary"""
+    from splink.internals.linker_components.misc import LinkerMisc
+    m = find_member(LinkerMisc, "save_model_to_json", kinds=("method",))
+
+    def bad(why):
+        problems.append({"group": "save_route", "shape": True, "why": "save_model_to_json: " + why})
+    if m is None:
+        return bad("not found")
+    fd = m[1]
+    body = [st for st in fd.body if not (isinstance(st, ast.Expr) and isinstance(st.value, ast.Constant))]
+    if not (len(body) == 3 and isinstance(body[0], ast.Assign) and ast.unparse(body[0].targets[0]) == "model_dict"
+            and ast.unparse(body[0].value) == "self._linker._settings_obj.as_dict()"
+            and isinstance(body[1], ast.If) and ast.unparse(body[1].test) == "out_path" and not body[1].orelse
+            and isinstance(body[2], ast.Return) and ast.unparse(body[2].value) == "model_dict"):
+        return bad("no longer `model_dict = settings.as_dict(); if out_path: ...; return model_dict`")
+    inner = body[1].body
+    guards = [st for st in inner if isinstance(st, ast.If)]
+    writes = [st for st in inner if isinstance(st, ast.With)]
+    if len(inner) != len(guards) + len(writes) or len(writes) != 1 or inner[-1] is not writes[0]:
+        return bad("the write is not the unconditional last statement under `if out_path:`")
+    for gd in guards:
+        if gd.orelse or not all(isinstance(x, ast.Raise) for x in gd.body):
+            return bad("a guard before the write does something other than raise")
+        t = ast.unparse(gd.test)
+        if "overwrite" not in t or "isfile" not in t:
+            return bad(f"unexpected guard `{t}`")
+    w = writes[0]
+    src_w = ast.unparse(w)
+    if not ("open(out_path, 'w'" in src_w.replace('"', "'") and "json.dump(model_dict, f" in src_w):
+        return bad("the write is not json.dump(model_dict, <file opened for writing at out_path>)")
+
+
 BUILDERS = [("level", build_level), ("comparison", build_comparison), ("settings", build_settings),
             ("blocking", build_blocking)]
+
+
+SHAPE_PROBLEMS: list = []
 
 
 def build_all():
     """returns (pipelines, failures, notes, opaque)"""
     pipelines, failures, notes, opaque = [], [], [], []
+    SHAPE_PROBLEMS.clear()
     for name, fn in BUILDERS:
         sx = SymExec()
         try:
@@ -682,6 +734,15 @@ def build_all():
             failures.append({"group": name, "why": str(e)})
         notes += [n for n in sx.notes if n not in notes]
         opaque += [o for o in sx.opaque if o not in opaque]
+    try:
+        check_save_route(SHAPE_PROBLEMS)
+    except Exception as e:      # fail closed
+        SHAPE_PROBLEMS.append({"group": "save_route", "shape": True, "why": f"save_model_to_json could not be read: {e!r}"})
+    seen = set()
+    for pr in SHAPE_PROBLEMS:
+        if pr["why"] not in seen:
+            seen.add(pr["why"])
+            failures.append(pr)
     return pipelines, failures, notes, opaque
 
 
